@@ -12,7 +12,10 @@ def apply(cfg, order, history=False, reuse=False):
     streams = {}
     for name in order:
         s = MersenneTwister(cfg["streams"][name])
-        if history:
+        if history == "used":
+            for _ in range(3):          # drawn from, seed untouched (equals the original seed)
+                s.next_float()
+        elif history:
             for _ in range(3):
                 s.next_float()
             s.set_seed(12345)
@@ -50,7 +53,7 @@ def main():
     for cfg in cfgs:
         names = list(cfg["streams"])
         r = {"base": apply(cfg, names), "perm": apply(cfg, cfg["perm"]), "hist": apply(cfg, names, history=True),
-             "reuse": apply(cfg, names, reuse=True), "alone": {}}
+             "reuse": apply(cfg, names, reuse=True), "used": apply(cfg, names, history="used"), "alone": {}}
         for n in names:
             r["alone"][n] = apply(dict(cfg, streams={n: cfg["streams"][n]}), [n]).get(n)
         if cfg["updater"] == "table":
